@@ -3,7 +3,7 @@ import json
 import pickle
 import warnings
 from collections import Counter
-from copy import deepcopy
+from copy import copy, deepcopy
 from dataclasses import asdict, dataclass, field
 from itertools import chain
 from pathlib import Path
@@ -1064,11 +1064,15 @@ class BaseDAGExecution(Generic[P, RVDAG]):
         if self.executed:
             raise TawaziUsageError("DAGExecution object has already been executed.")
 
+        # the results the execution starts from: those of the DAG extended with the cached ones,
+        #  so that the scheduler prunes the cached nodes instead of recomputing them
+        self._pre_results = self.results
         if self.from_cache:
             with open(self.from_cache, "rb") as f:
                 cached_results = pickle.load(f)  # noqa: S301
-            for node in self.cached_nodes:
-                self.results = cached_results[node.id]
+            self._pre_results = copy(self.results)
+            for node_id, result in cached_results.items():
+                self._pre_results.force_set(node_id, result)
 
     def _post_call(self) -> RVDAG:
         # mark as executed. Important for the next step
@@ -1114,7 +1118,7 @@ class DAGExecution(BaseDAGExecution[P, RVDAG]):
         # the scheduler consumes the graph it is given: run on a copy so that
         # a run that fails leaves the complete selection for the next attempt
         self.xn_dict, self.results, self.profiles = self.dag.run_subgraph(
-            deepcopy(self.graph), self.results, *args
+            deepcopy(self.graph), self._pre_results, *args
         )
 
         return self._post_call()
@@ -1151,7 +1155,7 @@ class AsyncDAGExecution(BaseDAGExecution[P, RVDAG]):
         # the scheduler consumes the graph it is given: run on a copy so that
         # a run that fails leaves the complete selection for the next attempt
         self.xn_dict, self.results, self.profiles = await self.dag.run_subgraph(
-            deepcopy(self.graph), self.results, *args
+            deepcopy(self.graph), self._pre_results, *args
         )
 
         return self._post_call()
